@@ -4,6 +4,7 @@ import (
 	"fmt"
 	"go/token"
 	"go/types"
+	"sort"
 	"strings"
 
 	"golang.org/x/tools/go/ssa"
@@ -302,15 +303,52 @@ func checkC05(cx *Ctx, r *Report) {
 			vset[f] = true
 		}
 	}
-	isCrypto := func(c ssa.CallInstruction) bool {
+	// A module helper that is not one of the anchors counts as a verifying call when it obeys the verifier
+	// discipline itself (verifyECDSA next to verifyRSA / verifyDSA); it is then reported as its own obligation.
+	type helperVerdict struct{ status, pos, msg string }
+	discovered := map[*ssa.Function]*helperVerdict{}
+	var isCrypto func(c ssa.CallInstruction) bool
+	isCrypto = func(c ssa.CallInstruction) bool {
 		switch calleeName(c) {
-		case "crypto/rsa.VerifyPKCS1v15", "crypto/dsa.Verify", "(*github.com/russellhaering/goxmldsig.ValidationContext).Validate", "crypto/rsa.VerifyPSS", "crypto/ecdsa.Verify", "crypto/ecdsa.VerifyASN1":
+		case "crypto/rsa.VerifyPKCS1v15", "crypto/dsa.Verify", "(*github.com/russellhaering/goxmldsig.ValidationContext).Validate", "crypto/rsa.VerifyPSS", "crypto/ecdsa.Verify", "crypto/ecdsa.VerifyASN1", "crypto/ed25519.Verify":
 			return true
 		}
-		if f := calleeOf(c); f != nil && vset[f] {
-			return true
+		isVerifierFn := func(f *ssa.Function) bool {
+			if vset[f] {
+				return true
+			}
+			if f.Blocks == nil || f.Pkg == nil || !isModulePath(f.Pkg.Pkg.Path()) || isMockPath(f.Pkg.Pkg.Path()) {
+				return false
+			}
+			if hv, ok := discovered[f]; ok {
+				return hv.status == "ok"
+			}
+			discovered[f] = &helperVerdict{status: "busy"}
+			st, pos, msg := cx.verifierEval(f, isCrypto)
+			discovered[f] = &helperVerdict{st, pos, msg}
+			return st == "ok"
 		}
-		return false
+		if f := calleeOf(c); f != nil {
+			return isVerifierFn(f)
+		}
+		// a verifier kept as a function value (a table of algorithms): every function the value can denote
+		// must be a verifier
+		if c.Common().IsInvoke() {
+			return false
+		}
+		if _, isB := c.Common().Value.(*ssa.Builtin); isB {
+			return false
+		}
+		tg, ok := fx.funcTargets(c.Common().Value)
+		if !ok || len(tg) == 0 {
+			return false
+		}
+		for _, f := range tg {
+			if !isVerifierFn(f) {
+				return false
+			}
+		}
+		return true
 	}
 	for _, vk := range verifierKeys {
 		fn := w.Func(vk)
@@ -323,6 +361,22 @@ func checkC05(cx *Ctx, r *Report) {
 			continue
 		}
 		cx.checkVerifier(r, fn, isCrypto)
+	}
+	{
+		var hs []*ssa.Function
+		for f := range discovered {
+			hs = append(hs, f)
+		}
+		sort.Slice(hs, func(i, j int) bool { return w.FuncKey(hs[i]) < w.FuncKey(hs[j]) })
+		for _, f := range hs {
+			switch hv := discovered[f]; hv.status {
+			case "ok":
+				r.Ok("R-VERIFIER", w.FuncKey(f), w.FnPos(f), "helper of a verifier: "+hv.msg)
+			case "fail", "undecided":
+				// a helper that calls a verification primitive but may return nil without its verdict
+				r.Fail("R-VERIFIER", w.FuncKey(f), hv.pos, hv.msg)
+			}
+		}
 	}
 	r.Min("R-VERIFIER", 7)
 	// ValidatePost validates the element it was given (the document root), not an element found by searching for a signature
@@ -513,8 +567,24 @@ func (cx *Ctx) isHelperAtom(a Atom, helpers map[*ssa.Function]bool) bool {
 // verifying call, (b) a freshly made / package-level non-nil error, or (c) nil only under the passing edge
 // of a verifying call.
 func (cx *Ctx) checkVerifier(r *Report, fn *ssa.Function, isCrypto func(ssa.CallInstruction) bool) {
-	w, fx := cx.W, cx.Fx
+	w := cx.W
 	key := w.FuncKey(fn)
+	st, pos, msg := cx.verifierEval(fn, isCrypto)
+	switch st {
+	case "ok":
+		r.Ok("R-VERIFIER", key, pos, msg)
+	case "undecided":
+		r.Undecided("R-VERIFIER", key, pos, msg)
+	case "nocalls":
+		r.Fail("R-VERIFIER", key, pos, "the function performs no cryptographic verification call any more")
+	default:
+		r.Fail("R-VERIFIER", key, pos, msg)
+	}
+}
+
+// verifierEval decides the verifier discipline for fn: status ok | fail | undecided | nocalls.
+func (cx *Ctx) verifierEval(fn *ssa.Function, isCrypto func(ssa.CallInstruction) bool) (status, pos, msg string) {
+	w, fx := cx.W, cx.Fx
 	// verdict values: error results (or bool results) of verifying calls and their aliases
 	verdict := map[ssa.Value]bool{}
 	var vcalls []*ssa.Call
@@ -533,13 +603,15 @@ func (cx *Ctx) checkVerifier(r *Report, fn *ssa.Function, isCrypto func(ssa.Call
 		}
 	}
 	if len(vcalls) == 0 {
-		r.Fail("R-VERIFIER", key, w.FnPos(fn), "the function performs no cryptographic verification call any more")
-		return
+		return "nocalls", w.FnPos(fn), ""
+	}
+	res0 := fn.Signature.Results()
+	if res0.Len() == 0 || !isErrorTypeT(res0.At(res0.Len()-1).Type()) {
+		return "nocalls", w.FnPos(fn), "not an error-returning function"
 	}
 	aps, ok := fx.atomPaths(fn, 4096)
 	if !ok {
-		r.Undecided("R-VERIFIER", key, w.FnPos(fn), "too many paths")
-		return
+		return "undecided", w.FnPos(fn), "too many paths"
 	}
 	for _, p := range aps {
 		if p.Ret == nil {
@@ -562,6 +634,10 @@ func (cx *Ctx) checkVerifier(r *Report, fn *ssa.Function, isCrypto func(ssa.Call
 				}
 			}
 		}
+		if verdict[o] {
+			continue
+		}
+		o = fx.throughIdentity(o)
 		if verdict[o] {
 			continue
 		}
@@ -617,11 +693,10 @@ func (cx *Ctx) checkVerifier(r *Report, fn *ssa.Function, isCrypto func(ssa.Call
 			}
 		}
 		if !passed {
-			r.Fail("R-VERIFIER", key, w.InstrPos(p.Ret), "returns nil on a path on which no signature verification succeeded ("+atomsString(p.Atoms)+")")
-			return
+			return "fail", w.InstrPos(p.Ret), "returns nil on a path on which no signature verification succeeded (" + atomsString(p.Atoms) + ")"
 		}
 	}
-	r.Ok("R-VERIFIER", key, w.FnPos(fn), fmt.Sprintf("nil only as / under the verdict of %d verifying call(s)", len(vcalls)))
+	return "ok", w.FnPos(fn), fmt.Sprintf("nil only as / under the verdict of %d verifying call(s)", len(vcalls))
 }
 
 // checkSigningCertsOnly: every certificate GetCertsFromKeyDescriptors can return was appended on a path that
